@@ -486,6 +486,39 @@ theorem isSwap_swapImg (k : Nat) (sh : List Nat) (img : Array Rat) (hsz : img.si
   unfold swapImg
   rw [get_tab_lt _ hlt, unflat_flat hv', swapAt_swapAt]
 
+/-! ## products of exchanges of adjacent axes (these generate every permutation of the axes) -/
+
+/-- apply the exchanges `w = [k₁, k₂, …]` (axes `kᵢ`, `kᵢ+1`) one after the other to a per-axis list -/
+def swaps {α : Type} : List Nat → List α → List α
+  | [], l => l
+  | k :: w, l => swaps w (swapAt k l)
+
+/-- `img'` is `img` after the axis exchanges `w` -/
+def IsSwaps : List Nat → List Nat → Array Rat → Array Rat → Prop
+  | [], _, img, img' => img' = img
+  | k :: w, sh, img, img'' => ∃ img', IsSwap k sh img img' ∧ IsSwaps w (swapAt k sh) img' img''
+
+/-- what `IsSwaps` means pixel by pixel -/
+theorem isSwaps_px : ∀ (w : List Nat) (sh : List Nat) (img img' : Array Rat),
+    IsSwaps w sh img img' → ∀ ix, Valid sh ix →
+      pxN (swaps w sh) img' (swaps w ix) = pxN sh img ix
+  | [], _, _, _, h, _, _ => by simp only [IsSwaps] at h; subst h; rfl
+  | k :: w, sh, img, img'', h, ix, hv => by
+    simp only [IsSwaps] at h
+    rcases h with ⟨img', h1, h2⟩
+    simp only [swaps]
+    rw [isSwaps_px w (swapAt k sh) img' img'' h2 (swapAt k ix) (valid_swapAt k sh ix hv)]
+    exact h1.2.2 ix hv
+
+theorem exists_isSwaps : ∀ (w : List Nat) (sh : List Nat) (img : Array Rat),
+    img.size = sh.prod → ∃ img', IsSwaps w sh img img'
+  | [], _, img, _ => ⟨img, rfl⟩
+  | k :: w, sh, img, hsz => by
+    have h1 := isSwap_swapImg k sh img hsz
+    rcases exists_isSwaps w (swapAt k sh) (swapImg k sh img)
+      (by rw [prod_swapAt]; exact h1.2.1) with ⟨img'', h2⟩
+    exact ⟨img'', swapImg k sh img, h1, h2⟩
+
 /-- in 2-D the exchange of axes 0 and 1 is the executable transpose -/
 theorem isSwap_transpose2 (H W : Nat) (img : Array Rat) (hsz : img.size = H * W) :
     IsSwap 0 [H, W] img (transpose2 H W img) := by
